@@ -364,6 +364,44 @@ def rule_pin_refresh(chk, prog):
             r.ok("updatePosition(%s)" % (f.params[0]["t"] if f.params else ""), f.where())
 
 
+def rule_connend_queue(chk, prog):
+    from ..microai.interp import default_obj, Oracle
+    import itertools
+    r = chk.rule("CONNEND-QUEUE", "ActionInfo::addConnEndUpdate interpreted on every sequence of up to three queued end-point changes (end "
+                 "type src/tar, user change or pin-follow update): per end type at most one entry is kept; a user change replaces the "
+                 "queued entry of its end, a pin-follow update (shape moved) never replaces a queued change and is appended only when its "
+                 "end has none -- so re-attaching an end and moving the old shape in one transaction keeps the user's choice", floor=1)
+    fn = prog.fn("Avoid::ActionInfo::addConnEndUpdate")
+    n = 0
+    bad = None
+    ops = [(t, u) for t in (1, 2) for u in (False, True)]
+    for k in (1, 2, 3):
+        for seq in itertools.product(ops, repeat=k):
+            ai = default_obj(prog, "Avoid::ActionInfo", {"type": 6, "conns": Vec([], "std::pair<unsigned int, Avoid::ConnEnd>")})
+            it = Interp(prog, Oracle([]))
+            model = []
+            try:
+                for j, (t, pinmove) in enumerate(seq):
+                    ce = default_obj(prog, "Avoid::ConnEnd", {})
+                    ce.f["_tag"] = j
+                    it.call(fn, ai, None, None, arg_values=[t, ce, pinmove])
+                    ex = [m for m in model if m[0] == t]
+                    if ex:
+                        if not pinmove:
+                            ex[0][1] = j
+                    else:
+                        model.append([t, j])
+            except (Unsupported, AssertFail) as e:
+                raise AnalysisBroken("ActionInfo::addConnEndUpdate outside the interpreter subset: %s" % e)
+            n += 1
+            got = [[p_.f["first"], p_.f["second"].f.get("_tag")] for p_ in ai.f["conns"].items]
+            if got != model:
+                bad = bad or "after %s the queue is %s, expected %s" % (
+                    ["%s %s" % ("src" if t == 1 else "tar", "pin-follow" if u else "user") for t, u in seq], got, model)
+    r.count(n)
+    (r.bad if bad else r.ok)("addConnEndUpdate", fn.where(), bad or "%d sequences" % n)
+
+
 def rule_pin_position(chk, prog):
     r = chk.rule("PIN-POSITION", "ShapeConnectionPin::position(newPoly), symbolic over the bounding box (x0,y0,x1,y1), offsets and insideOffset: "
                  "proportional: x = x0 + inside | x1 - inside | x0 + t*(x1-x0) for LEFT | RIGHT | t; absolute: x = x0 + inside | x1 - inside | "
@@ -465,5 +503,6 @@ def run(chk):
     rule_pins_follow(chk, prog)
     rule_pin_update_source(chk, prog)
     rule_pin_refresh(chk, prog)
+    rule_connend_queue(chk, prog)
     rule_pin_position(chk, prog)
     rule_pin_directions(chk, prog)
